@@ -34,6 +34,8 @@ type Cmd struct {
 	Stdin string    `json:"stdin,omitempty"`
 	Mode  StdinMode `json:"mode"`
 	Dir   string    `json:"-"` // working directory
+	// StdoutFull connects stdout to /dev/full: every write to it fails with ENOSPC
+	StdoutFull bool `json:"stdout_full,omitempty"`
 	Env   []string  `json:"env,omitempty"`
 }
 
@@ -84,6 +86,12 @@ func RunBin(bin string, c Cmd) Res {
 	var out, errb bytes.Buffer
 	cmd.Stdout = &out
 	cmd.Stderr = &errb
+	if c.StdoutFull {
+		if f, err := os.OpenFile("/dev/full", os.O_WRONLY, 0); err == nil {
+			defer f.Close()
+			cmd.Stdout = f
+		}
+	}
 	switch c.Mode {
 	case StdinPipe:
 		cmd.Stdin = strings.NewReader(c.Stdin)
